@@ -219,7 +219,71 @@ def child_runs(ctx, bt, specs):
                           % ([x[0] for x in rs], [x[1]["final"] for x in rs], [x[1]["universe"] for x in rs]), {"child_spec": spec})
 
 
+def session_protocol(ctx, bt, n):
+    """`session`: random schedules of constructions and (repeated) runs over one template on the real code vs the model's
+    `Session.steps`: the has_run flag of every backtest after the schedule; the real side also counts how often each backtest's
+    strategy was actually set up (at most once) and compares every finished backtest with the same backtest run alone."""
+    from ..leanrun import run_lines
+    lines, meta = [], []
+    for _ in range(n):
+        spec = R.gen_run_spec(ctx.rng, T=ctx.rng.randint(5, 9))
+        spec["global_seed"] = ctx.rng.randint(0, 10 ** 6)
+        template = R.build_strategy(bt, spec)
+        t_before = canon(template)
+        ops, bts, setups = [], [], []
+        for _k in range(ctx.rng.randint(3, 9)):
+            if not bts or ctx.rng.random() < 0.35:
+                b, d, a = make_bt(bt, template, spec)
+                cnt = [0]
+                orig_setup = b.strategy.setup
+
+                def spy(*aa, _o=orig_setup, _c=cnt, **kw):
+                    _c[0] += 1
+                    return _o(*aa, **kw)
+                b.strategy.setup = spy
+                bts.append(b)
+                setups.append(cnt)
+                ops.append("C")
+            else:
+                i = ctx.rng.randrange(len(bts))
+                run_one(bts[i], spec["global_seed"])
+                ops.append("R %d" % i)
+        rd = {"case": {"spec": spec, "variants": [{"capital": spec["capital"], "same_data": True, "integer": spec["integer"], "comm": spec["comm"]}],
+                       "order": [0], "interleave": True}}
+        if canon(template) != t_before:
+            ctx.violation("C11/template-mutated", "the strategy template changed during a session of constructions and runs %r" % ops, rd)
+        for i, c in enumerate(setups):
+            if c[0] > 1:
+                ctx.violation("C11/rerun-ran-again", "backtest #%d was set up %d times in the session %r" % (i, c[0], ops), rd)
+        solo = None
+        for i, b in enumerate(bts):
+            if b.has_run and hasattr(b.strategy, "data"):
+                if solo is None:
+                    sb, _, _ = make_bt(bt, R.build_strategy(bt, spec), spec)
+                    run_one(sb, spec["global_seed"])
+                    solo = S.node_histories(bt, sb.strategy) if hasattr(sb.strategy, "data") else {}
+                df = S.first_diff(solo, S.node_histories(bt, b.strategy))
+                if df is not None:
+                    ctx.violation("C11/order-dependence", "backtest #%d of the session %r differs from the same backtest run alone: %s" % (i, ops, df), rd)
+                    break
+        lines.append("session %d %s" % (len(ops), " ".join(ops)))
+        meta.append((spec, ops, [bool(b.has_run) for b in bts]))
+        ctx.count("session:ops", len(ops))
+        ctx.count("session:repeated-runs", sum(1 for j, o in enumerate(ops) if o.startswith("R") and o in ops[:j]))
+    outs = run_lines(lines) if lines else []
+    nd = 0
+    for (spec, ops, flags), o in zip(meta, outs):
+        toks = o.split()
+        model = [t == "1" for t in toks[2:]] if toks and toks[0] == "ok" else None
+        if model != flags:
+            nd += 1
+            ctx.disagreement("corr:session:has_run", {"ops": ops, "real": flags, "model": model}, {"spec": spec, "ops": ops})
+    ctx.protocols.append(("session", len(meta), nd))
+
+
 def run(ctx, bt, scale=1):
+    if scale == 1:
+        session_protocol(ctx, bt, ctx.scale(25, 400))
     specs = []
     for _ in range(ctx.scale(45, 900) * scale):
         case = gen_case(ctx.rng)
